@@ -771,6 +771,47 @@ pub fn for_each_wild_combined(st: &mut Striper, visit: &mut dyn FnMut(&Term)) {
       }
     }
   }
+  // every original LINE an outer segment can name, from 0 to three past the last line of the inner
+  // source (the per-line tables have one entry more than the text has lines), for inner texts
+  // with and without trailing line break and for empty ones
+  for orig_text in ["xy\nz", "xy\nz\n", "", "\n", "q"] {
+    let nlines = orig_text.matches('\n').count() as u32 + 1;
+    for ol in 0..=nlines + 3 {
+      for oc in [0u32, 1, 9] {
+        for second in [None, Some((0u32, ol, oc + 1, Some(0u32))), Some((0, ol + 1, 0, None))] {
+          if !st.mine() {
+            continue;
+          }
+          let mut osegs = vec![Seg { gl: 1, gc: 0, orig: Some((0, ol, oc, None)) }];
+          if let Some(o) = second {
+            osegs.push(Seg { gl: 1, gc: 1, orig: Some(o) });
+          }
+          let inner_variants: Vec<Vec<Seg>> = vec![
+            vec![],
+            vec![Seg { gl: 1, gc: 0, orig: Some((0, 1, 0, None)) }],
+            vec![Seg { gl: nlines, gc: 0, orig: Some((0, 1, 0, Some(0))) }],
+            vec![Seg { gl: 1, gc: 0, orig: Some((0, 1, 0, None)) }, Seg { gl: nlines + 1, gc: 0, orig: Some((1, 2, 0, None)) }],
+          ];
+          for isegs in inner_variants {
+            for opt in 0..4u8 {
+              let mut om = MapSpec::new(osegs.clone(), &["inner.js", "o1"], None, &["ab", "zz"]);
+              om.contents = Some(vec![orig_text.to_string(), "other".into()]);
+              let im = MapSpec::new(isegs.clone(), &["x0", "x1"], if opt & 1 == 0 { None } else { Some(&["ab\ncd", "q"]) }, &["in0"]);
+              let t = Term::Sms(Box::new(SmsSpec {
+                value: gen.to_string(),
+                name: "inner.js".into(),
+                map: om,
+                original_source: (opt & 2 != 0).then(|| orig_text.to_string()),
+                inner: Some(im),
+                remove: ol % 2 == 0,
+              }));
+              visit(&t);
+            }
+          }
+        }
+      }
+    }
+  }
   let outer_lists = trees::seg_lists(&opos, &outer_kinds, 2);
   let (ipos0, iend) = crate::model::positions(original);
   let mut ipos = ipos0.clone();
